@@ -5,7 +5,8 @@ ROOT = os.path.dirname(os.path.dirname(os.path.abspath(__file__)))
 desc = json.load(open(os.path.join(ROOT, 'findings', 'descriptions.json')))
 owners = json.load(open(os.path.join(ROOT, 'findings', 'owners.json')))   # property -> [classes]
 props = sorted(owners)
-w = json.loads(subprocess.run([sys.executable, os.path.join(ROOT, 'tools', 'mkwitness.py')] + props, stdout=subprocess.PIPE, text=True, check=True).stdout)
+only = [a for a in sys.argv[1:] if a in owners]          # optional: recompute the witnesses of these properties only
+w = json.loads(subprocess.run([sys.executable, os.path.join(ROOT, 'tools', 'mkwitness.py')] + (only or props), stdout=subprocess.PIPE, text=True, check=True).stdout)
 old = {}
 p = os.path.join(ROOT, 'known_findings.json')
 if os.path.exists(p):
@@ -13,6 +14,9 @@ if os.path.exists(p):
         old[(k['property'], k['class'])] = k
 findings = []
 for prop in props:
+    if only and prop not in only:
+        findings += [k for (pp, _), k in old.items() if pp == prop]
+        continue
     for cls in owners[prop]:
         wit = w.get(prop, {}).get(cls)
         prev = old.get((prop, cls))
